@@ -4,6 +4,8 @@ import (
 	"fmt"
 	"strings"
 
+	"github.com/alttpo/snes/asm"
+
 	"verif/sim"
 )
 
@@ -26,6 +28,9 @@ type roleWorld interface {
 func roleByName(name string) roleWorld {
 	if name == "PURE" {
 		return pureRole{}
+	}
+	if name == "CLONEX" {
+		return cloneXRole{}
 	}
 	if w, ok := sim.Worlds[name]; ok && name != "C18" {
 		return w
@@ -78,6 +83,30 @@ func (c18) Gen(r *sim.Rand, tier string, run uint64) *sim.Scenario {
 			if role == "C12" || role == "C14" || role == "C07" {
 				heavy++
 			}
+		}
+	}
+	if r.Chance(1, 3) {
+		// a clone group: 2-3 parties each emit into their own Clone of one common parent emitter
+		// (shared read-only), e.g. alternatives assembled in parallel from a common prefix
+		base := cloneXRole{}.Gen(sim.ForkSeed(r.U64(), "gen"), "quick", run)
+		k := r.Range(2, 3)
+		for i := 0; i < k; i++ {
+			var ops []sim.Op
+			inTail := false
+			for _, op := range base.Ops {
+				if op.K == "clone" {
+					inTail = true
+					ops = append(ops, op)
+					continue
+				}
+				if inTail && op.K != "ref" && op.K != "label" && r.Chance(1, 4) {
+					continue // siblings differ in their tails
+				}
+				ops = append(ops, op)
+			}
+			cfg := map[string]int64{"group": int64(len(sc.Tasks) + 1 - i), "shift": int64(i), "gentext": base.Cfg["gentext"]}
+			cfg["group"] = int64(1000 + run%1000)
+			sc.Tasks = append(sc.Tasks, sim.Task{Role: "CLONEX", Seed: r.U64(), Cfg: cfg, Ops: ops})
 		}
 	}
 	sc.Cfg["nsched"] = 4
@@ -174,8 +203,22 @@ func (c18) Exec(sc *sim.Scenario, env *sim.Env) *sim.Violation {
 	pr := sim.ForkSeed(sc.Seed, "ppm")
 	for j := 0; j < nsched; j++ {
 		envs := make([]*sim.Env, nt)
+		parents := map[uint64]interface{}{}
 		for i := range envs {
 			envs[i] = taskEnv(sc, i)
+			if sc.Tasks[i].Role == "CLONEX" {
+				// parties share a parent only if it is the same parent: same group, same head script
+				// and settings (shrinking may have edited one sibling's head)
+				head, _ := cloneHead(sc.Tasks[i].Ops)
+				g := sim.HashU64(uint64(sc.Tasks[i].Cfg["group"]), uint64(sc.Tasks[i].Cfg["gentext"]))
+				for _, op := range head {
+					g = sim.HashBytes(sim.HashBytes(g, []byte(op.String())), op.B)
+				}
+				if parents[g] == nil {
+					parents[g] = buildCloneParent(&sc.Tasks[i])
+				}
+				envs[i].Shared = parents[g]
+			}
 		}
 		scj := *sc
 		scj.Seed = sim.Mix(sc.Seed + uint64(j)*0x9E37)
@@ -259,5 +302,99 @@ func (c18) Exec(sc *sim.Scenario, env *sim.Env) *sim.Violation {
 		st.Probe("role_" + t.Role)
 	}
 	st.State(sim.HashU64(uint64(nt), solo[0].digest))
+	return nil
+}
+
+// ---------------------------------------------------------------------------------------
+// CLONEX role: parties that each own a Clone of one common parent emitter. Alone, a party
+// builds the parent itself; interleaved, the parties of a group clone the same parent object
+// (which nobody mutates). Each party emits its tail into its clone, appends the clone to a
+// private twin of the parent and finalizes that: the observations must not depend on the
+// existence of sibling clones.
+type cloneXRole struct{}
+
+func (cloneXRole) Gen(r *sim.Rand, tier string, run uint64) *sim.Scenario {
+	sc := &sim.Scenario{Cfg: map[string]int64{"gentext": int64(r.Intn(2))}}
+	head, _ := genAsmHistory(r, 24, 200, true, false)
+	tail, _ := genAsmHistory(r, 16, 120, true, false)
+	hot := int64(r.Intn(allLabelIdx))
+	fix := func(ops []sim.Op) []sim.Op {
+		var out []sim.Op
+		for _, op := range ops {
+			if op.K == "ref" {
+				// absolute jumps to one label defined at the very end: its pending-reference list
+				// grows across the split and Finalize can always succeed
+				op = sim.Op{K: "ref", S: "JMP_abs", N: []int64{hot}}
+			}
+			if op.K == "label" && op.Arg(0) == hot {
+				continue
+			}
+			out = append(out, op)
+			if op.K == "ins" && r.Chance(1, 6) {
+				out = append(out, sim.Op{K: "ref", S: "JMP_abs", N: []int64{hot}})
+			}
+		}
+		return out
+	}
+	sc.Ops = append(fix(head), sim.Op{K: "clone"})
+	sc.Ops = append(sc.Ops, fix(tail)...)
+	sc.Ops = append(sc.Ops, sim.Op{K: "ref", S: "JMP_abs", N: []int64{hot}}, sim.Op{K: "label", N: []int64{hot}})
+	return sc
+}
+
+func cloneHead(ops []sim.Op) (head, tail []sim.Op) {
+	for i, op := range ops {
+		if op.K == "clone" {
+			return ops[:i], ops[i+1:]
+		}
+	}
+	return ops, nil
+}
+
+func buildCloneParent(t *sim.Task) interface{} {
+	head, _ := cloneHead(t.Ops)
+	e := asm.NewEmitter(make([]byte, 1024), t.Cfg["gentext"] != 0)
+	for _, op := range head {
+		asmApply(e, op)
+	}
+	return e
+}
+
+func (cloneXRole) Exec(sc *sim.Scenario, env *sim.Env) *sim.Violation {
+	head, tail := cloneHead(sc.Ops)
+	t := sim.Task{Cfg: sc.Cfg, Ops: sc.Ops}
+	var parent *asm.Emitter
+	if p, ok := env.Shared.(*asm.Emitter); ok && p != nil {
+		parent = p
+	} else {
+		parent = buildCloneParent(&t).(*asm.Emitter)
+	}
+	var clone *asm.Emitter
+	if p, _ := sim.RecoverLib(func() { clone = parent.Clone(make([]byte, 512)) }); p || clone == nil {
+		env.ObsStr("clone panicked")
+		return nil
+	}
+	for i := int64(0); i < sc.C("shift"); i++ {
+		asmApply(clone, sim.Op{K: "ins", S: "NOP"})
+	}
+	for _, op := range tail {
+		env.Yield("op")
+		p, _ := asmApply(clone, op)
+		env.ObsBool(p)
+		env.ObsU64(uint64(clone.PC()))
+		env.ObsInt(clone.Len())
+		env.OpDone()
+	}
+	private := buildCloneParent(&sim.Task{Cfg: sc.Cfg, Ops: head}).(*asm.Emitter)
+	pa, _ := sim.RecoverLib(func() { private.Append(clone) })
+	env.ObsBool(pa)
+	var err error
+	pf, _ := sim.RecoverLib(func() { err = private.Finalize() })
+	env.ObsBool(pf)
+	env.ObsBool(err == nil)
+	if err == nil && !pf {
+		obsSnap(env, snapEmitter(private)) // after a failed Finalize the image depends on map order
+	}
+	env.OpDone()
 	return nil
 }
